@@ -145,6 +145,7 @@ PROPS = {
                         "little-endian target; usize is 64 bits"],
     },
     "C09": {
+        "kani_jobs": 5,   # each writer harness peaks at ~6.5 GB of CBMC memory: 5 at a time stay far below the 62 GB of the sandbox
         "level": "proof",
         "explanation": "Per character the claim is complete: for EVERY Unicode scalar value (symbolic char) each of the four writers, run on "
                        "the real code through a fixed-capacity fmt::Write sink, produces a body that an RFC 8259 string decoder maps back to "
